@@ -34,14 +34,15 @@ class IterSim(Sim):
               "zip_same_tensor", "list_during_live_iteration", "getitem_during_live_iteration", "abandoned_then_restarted", "exhausted_cursor_polled_again",
               "rank0_refuses_iteration", "empty_first_dim", "rows_in_backward", "unpack", "len_during_iteration", "iteration_of_op_result",
               "state_changed_between_iterations", "iteration_of_strided_view", "several_rows_held", "index_kind_bool", "index_kind_out_of_range", "index_kind_float",
-              "index_kind_slice_step", "index_kind_index_array", "index_kind_mask", "index_kind_int_list", "mask_key_on_tracked_tensor", "index_array_reused", "iterator_passed_to_iter_again", "advanced_iterator_consumed_by_loop"]
+              "index_kind_slice_step", "index_kind_index_array", "index_kind_mask", "index_kind_int_list", "mask_key_on_tracked_tensor", "index_results_kept", "kept_row_given_values_of_its_own", "index_array_reused", "iterator_passed_to_iter_again", "advanced_iterator_consumed_by_loop"]
     RULE = ("one run = tensors plus a seeded interleaving of iter/next/drop on several cursors with nested for-loops, list/zip/unpack/len/index "
             "events; distinct = hash of (number of cursors, order of new/next/drop and loop events); non-trivial = two cursors over one tensor "
             "were live at once, or a nested loop over one tensor ran")
     ASSUMPTIONS = ["rows are compared with what t[i] returns now (the indexing result itself is the pure part of C05, not decided here)"]
 
     def knobs(self, rng, tier):
-        return {"max_events": rng.randint(6, 40), "n_tensors": rng.randint(1, 3)}
+        soak = rng.random() < 0.002        # one long-running program: thousands of iterations and lookups over a few tensors, results kept
+        return {"max_events": rng.randint(1500, 2500) if soak else rng.randint(6, 40), "n_tensors": rng.randint(2, 3) if soak else rng.randint(1, 3), "soak": soak}
 
     def start(self, knobs):
         st = RunState(knobs)
@@ -63,6 +64,25 @@ class IterSim(Sim):
                     "rg": rng.random() < 0.4, "derive": rng.choice([None, None, None, "mul1", "transpose", "colslice", "movedim"])}
         tids = sorted(st.T)
         live = sorted(st.its)
+        if kn.get("soak"):
+            u = rng.random()
+            if u < 0.30:
+                # the same kind of lookup again and again, every result kept by the program (a batch sampler that stores its mini-batches)
+                t = rng.choice([i for i in tids if st.T[i].data.ndim >= 1 and st.T[i].data.shape[0] >= 2] or tids)
+                n = st.T[t].data.shape[0] if st.T[t].data.ndim else 0
+                if n >= 2:
+                    return {"k": "gather_hold", "t": t, "idx": [rng.randrange(n) for _ in range(3)], "as": rng.choice(["list", "array"])}
+            elif u < 0.45:
+                return {"k": "list", "t": rng.choice(tids)}
+            elif u < 0.50 and len(live) > 6:
+                return {"k": "iter_drop", "it": rng.choice(live)}
+        if rng.random() < 0.04:
+            t = rng.choice(tids)
+            n = st.T[t].data.shape[0] if st.T[t].data.ndim else 0
+            if n:
+                # a row is taken out and kept; later it gets values of its own through a documented call (an initialiser re-binds its data):
+                # the tensor it came from must go on showing ITS rows
+                return {"k": "hold_row", "t": t, "i": rng.randrange(n), "then_init": rng.random() < 0.6}
         r = rng.random()
         if r < 0.22 or not live:
             return {"k": "iter_new", "it": st.next_it, "t": rng.choice(tids)}
@@ -270,6 +290,58 @@ class IterSim(Sim):
         c.setdefault("held", []).extend(got)
         if how != "for_break" or len(got) < ev["take"]:
             c["done"] = True          # the loop ran the iterator to exhaustion
+
+    def _check_held(self, st, limit=40):
+        held = getattr(st, "held", [])
+        for rec in held[-limit:] + held[:3]:
+            if rec["res"].data.tobytes() != rec["bytes"]:
+                st.fail("C05.indexing", f"a result of t[{rec['key']!r}] that the program kept changed later, although neither it nor the tensor was modified "
+                        f"({len(held)} results kept)", tensor=rec["t"])
+
+    def _ev_gather_hold(self, st, ev):
+        t = st.T.get(ev["t"])
+        if t is None or t.data.ndim == 0 or t.data.shape[0] < 2:
+            st.skipped += 1
+            return
+        idx = [i % t.data.shape[0] for i in ev["idx"]]
+        key = idx if ev.get("as") == "list" else np.array(idx, dtype=np.int64)
+        res = st.must("C05.indexing", "t[index list]", lambda: t[key])
+        want = t.data[idx]
+        if res.data.shape != want.shape or not np.allclose(np.asarray(res.data, dtype=np.float64), np.asarray(want, dtype=np.float64), rtol=1e-6, atol=1e-30):
+            st.fail("C05.indexing", f"t[{idx}] did not return those rows", tensor=ev["t"])
+        if not hasattr(st, "held"):
+            st.held = []
+        st.held.append({"t": ev["t"], "key": idx, "res": res, "bytes": res.data.tobytes()})
+        st.probes["index_results_kept"] += 1
+        self._check_held(st)
+        if len(st.held) % 200 == 0:
+            self._check_held(st, limit=len(st.held))
+
+    def _ev_hold_row(self, st, ev):
+        t = st.T.get(ev["t"])
+        if t is None or t.data.ndim == 0 or t.data.shape[0] == 0:
+            st.skipped += 1
+            return
+        i = ev["i"] % t.data.shape[0]
+        row = self._row(t, i)
+        if ev.get("then_init") and row.data.ndim >= 1 and row.data.dtype.kind == "f":
+            try:
+                with quiet():
+                    st.SG.init.zeros_(row)
+            except Exception:
+                st.notes["init_on_row_rejected"] += 1
+                return
+            st.probes["kept_row_given_values_of_its_own"] += 1
+        st.__dict__.setdefault("kept_rows", []).append(row)
+        del st.kept_rows[:-8]
+        # the tensor still shows its own rows (compared with its data)
+        again = self._row(t, i)
+        want = t.data[i]
+        if not np.allclose(np.asarray(again.data, dtype=np.float64), np.asarray(want, dtype=np.float64), rtol=1e-6, atol=1e-30):
+            st.fail("C05.indexing", f"t[{i}] no longer returns the tensor's own row after an earlier result of t[{i}] was given values of its own", tensor=ev["t"])
+        rows = st.must("C05.iteration", "list(tensor)", list, t)
+        if len(rows) != t.data.shape[0] or not np.allclose(np.asarray(rows[i].data, dtype=np.float64), np.asarray(want, dtype=np.float64), rtol=1e-6, atol=1e-30):
+            st.fail("C05.iteration", f"iterating the tensor no longer yields its own row {i} after an earlier t[{i}] was given values of its own", tensor=ev["t"])
 
     def _ev_iter_drop(self, st, ev):
         c = st.its.pop(ev["it"], None)
